@@ -295,6 +295,25 @@ ROUND7 = {
  "C15": "The name server object is made under each server type in turn.",
  "C20": "Object names that begin with an empty or a dot path segment (path shape lead_seg in Gateway.tla).",
 }
+# eighth round (DESIGN.md section 11.4h)
+ROUND8 = {
+ "C02": "Members that redefine an exposed or an unexposed method of the base class; member kind lazyattr (cached properties and other get-only descriptors: never served, never advertised, never evaluated).",
+ "C05": "Items payload_trailing (a second call behind the first in one payload) and payload_proxy_shape (a serialized Proxy as argument list, keyword arguments, member name or whole payload, pointing at a listener that never answers); the disconnect hook fails in every third script; a well-behaved client that cannot connect counts as disturbed.",
+ "C07": "Unserialisable content also as text that is not valid unicode (attribute, message, traceback of a chained exception); after the daemon's substitute error a per-connection object of the same connection must still have its state.",
+ "C08": "Whatever a validator raises (also ConnectionClosedError) must be answered with a connect-failure carrying the reason; first message class type_partial (header of another type whose body does not follow, sending side closed).",
+ "C09": "Histories in which instances take a while to make and every call is preceded by a oneway call on the same class over the same connection.",
+ "C10": "Streams.tla: a stream is gone once its time is up, housekeeping or not (NoItemPastDeadline); resume scripts; the proxy that made the streaming call kept by nobody but the iterator.",
+ "C11": "A oneway member (note) in the call alphabet of Batch.tla: its result is nothing, in a batch as in a call of its own.",
+ "C13": "A connection with an expired streamed result ends while the housekeeping runs in its own thread (schedule exploration over both functions).",
+ "C15": "Locks the name server module makes at import time are cooperative too.",
+ "C16": "Third focused family: an object with two ids (the second by a forced registration) that loses its first id.",
+ "C17": "Fatal socket errors in several shapes (no arguments, text only, subclasses); every recorded read is preceded by a read on another socket through the same code path.",
+ "C18": "The refusal path end to end with proxies of every serializer, a connect message naming an unknown serializer, and a silent peer followed by one more client under a communication timeout.",
+ "C19": "Uris a real daemon hands out for object ids of every shape must parse back to that id at that daemon.",
+ "C20": "The name's registration changes while the gateway runs (given to another object, removed).",
+}
+for _k, _v in ROUND8.items():
+    ROUND7[_k] = (ROUND7[_k] + " " + _v) if _k in ROUND7 else _v
 for _k, _v in ROUND7.items():
     LATER[_k] = (LATER[_k] + " " + _v) if _k in LATER else _v
 NOT_YET = {}
